@@ -663,3 +663,39 @@ Proof.
 Qed.
 
 End LUOrd.
+
+(* ================= the purely algebraic statements (no order laws: small := True) ================= *)
+Section LUAlg.
+Variable A : Type.
+Variable F : ops A.
+Variable fabs : A -> A.
+Hypothesis Fth : field_theory (fzero F) (fone F) (fadd F) (fmul F) (fsub F) (fopp F) (fdiv F) (finv F) (@eq A).
+Hypothesis feqb_spec : forall x y, feqb F x y = true <-> x = y.
+Let smallT (x : A) : Prop := True.
+Let smallT_pivot : forall (M : mat A) j k pv p i, pivot_scan A F fabs M j k = (pv, p) -> pv <> fzero F ->
+  (j <= i <= j + k)%nat -> smallT (fdiv F (M i j) pv).
+Proof. intros. exact I. Qed.
+
+Theorem getrf_PA_LU : forall bs tbs n (M0 LU : mat A) P, (0 < bs)%nat -> (0 < tbs)%nat ->
+  getrf A F fabs bs tbs n M0 = LUOk A LU P ->
+  (forall i c, (i < n)%nat -> (c < n)%nat ->
+     sumr A F 0 n (fun t => fmul F (tri A F false true LU i t) (tri A F true false LU t c)) = M0 (perm_of P 0 n i) c) /\
+  (forall t, (t < n)%nat -> (t <= P t < n)%nat) /\
+  Permutation (map (perm_of P 0 n) (seq 0 n)) (seq 0 n) /\
+  (forall c, (c < n)%nat -> LU c c <> fzero F).
+Proof.
+  intros bs tbs n M0 LU P Hb Htb H.
+  destruct (getrf_correct_gen A F fabs Fth feqb_spec smallT smallT_pivot bs tbs n M0 LU P Hb Htb H) as [H1 [H2 [H3 _]]].
+  split; [exact H1|]. split; [intros t Ht; apply H2; lia|]. split; [apply perm_of_Permutation; exact H2|exact H3].
+Qed.
+Theorem lu_solve_correct_alg : forall bs tbs n o (M0 LU : mat A) P b x, (0 < bs)%nat -> (0 < tbs)%nat ->
+  getrf A F fabs bs tbs n M0 = LUOk A LU P -> lu_solve A F o LU P n b = Some x ->
+  forall k, (k < n)%nat -> mv A F n M0 x k = b k.
+Proof. exact (lu_solve_correct A F fabs Fth feqb_spec smallT smallT_pivot). Qed.
+Theorem lu_solve_total_alg : forall bs tbs n o (M0 LU : mat A) P b, (0 < bs)%nat -> (0 < tbs)%nat ->
+  getrf A F fabs bs tbs n M0 = LUOk A LU P -> exists x, lu_solve A F o LU P n b = Some x.
+Proof. exact (lu_solve_total A F fabs Fth feqb_spec smallT smallT_pivot). Qed.
+Theorem lu_solve_full_correct_alg : forall bs tbs n o (M0 : mat A) b x, (0 < bs)%nat -> (0 < tbs)%nat ->
+  lu_solve_full A F fabs bs tbs o M0 n b = Some x -> forall k, (k < n)%nat -> mv A F n M0 x k = b k.
+Proof. exact (lu_solve_full_correct A F fabs Fth feqb_spec smallT smallT_pivot). Qed.
+End LUAlg.
